@@ -16,7 +16,7 @@
 EXTENDS Naturals, Sequences, TLC, Json, IOUtils
 
 \* value classes (the harness holds one representative of each)
-Reps == <<"neg", "zero", "one", "pos", "big", "float", "negfloat", "emptystr", "str", "numstr", "null", "emptyarr", "arr", "nested",
+Reps == <<"neg", "zero", "one", "pos", "big", "huge", "maxint", "float", "negfloat", "emptystr", "str", "numstr", "null", "emptyarr", "arr", "nested",
           "emptydict", "dict", "func", "native", "computed", "badcomputed">>
 
 \* templates: @1 @2 @3 are the holes
